@@ -519,7 +519,8 @@ std::vector<uint8_t> ref_encode(const EncLayout &L, const EncContent &C0) {
                 p.type = -1;
                 if (r.chance(1, 2)) { // 1-D padded string
                     std::string s = genName(r, 10);
-                    size_t w = s.size() + (L.pad_strings ? r.below(8) : 0);
+                    if (r.chance(1, 8)) s.clear(); // an empty string stored as one dimension of size 0 (only a file can hold that shape)
+                    size_t w = s.empty() ? 0 : s.size() + (L.pad_strings ? r.below(8) : 0);
                     p.dims = {static_cast<uint8_t>(w)};
                     for (size_t i = 0; i < w; ++i) p.raw.push_back(i < s.size() ? static_cast<uint8_t>(s[i]) : ' ');
                 } else {
